@@ -382,8 +382,14 @@ class Exec:
             conds = self.engine.finding_conds.get(name)
             if conds:
                 fs = [(fid, c(self)) for fid, c in conds]
-                self.solver.add(z3.Not(z3.Or([f for _, f in fs])))
-                r2 = self.solver.check()
+                cover = L.simp(z3.Or([f for _, f in fs]))
+                if L.is_true(cover):
+                    r2 = z3.unsat         # the recorded branch is the whole clause
+                elif L.is_false(cover):
+                    r2 = z3.sat
+                else:
+                    self.solver.add(z3.Not(cover))
+                    r2 = self.solver.check()
                 if r2 == z3.unsat:
                     status = 'known'
                     matched = [fid for fid, _ in fs]
